@@ -148,6 +148,14 @@ class GenElem(Elem):
 
     # -------- statements
     def stmt(self, st):
+        if isinstance(st, ast.Expr) and isinstance(st.value, ast.Call) and isinstance(st.value.func, ast.Attribute) and st.value.func.attr in ("append", "extend") \
+                and isinstance(st.value.func.value, ast.Name) and isinstance(self.env.get(st.value.func.value.id), list) and len(st.value.args) == 1:
+            v = self.expr(st.value.args[0])
+            if st.value.func.attr == "append":
+                self.env[st.value.func.value.id].append(v)
+            else:
+                self.env[st.value.func.value.id].extend(list(v))
+            return
         if isinstance(st, ast.For):
             it = self.expr(st.iter)
             if not isinstance(it, range):
@@ -267,7 +275,7 @@ class GenElem(Elem):
             if isinstance(base, WhereIdx):
                 i = self.expr(sl)
                 return WherePart(base, i)
-            if isinstance(base, tuple):
+            if isinstance(base, (tuple, list)):
                 if isinstance(sl, ast.Slice):
                     lo = self.expr(sl.lower) if sl.lower is not None else None
                     hi = self.expr(sl.upper) if sl.upper is not None else None
@@ -311,6 +319,8 @@ class GenElem(Elem):
                 return None
             if dotted(e) in ("np.pi", "numpy.pi"):
                 return TV(sp.pi)
+        if isinstance(e, ast.List):
+            return [self.expr(z) for z in e.elts]
         if isinstance(e, ast.Tuple):
             out = []
             for z in e.elts:
@@ -327,6 +337,9 @@ class GenElem(Elem):
         args = [self.expr(z) for z in e.args]
         kw = {k.arg: self.expr(k.value) for k in e.keywords}
 
+        if d in ("np.array", "numpy.array", "np.stack", "numpy.stack", "np.asarray") and len(args) == 1 and isinstance(args[0], list) and args[0] \
+                and all(isinstance(z, (TV, int, sp.Basic)) and not isinstance(z, bool) for z in args[0]) and set(kw) <= {"axis"} and kw.get("axis", 0) == 0:
+            return KTable(list(args[0]))  # a list of per-order arrays stacked along the Hermite-term axis
         if d in ("np.any", "numpy.any", "np.all", "numpy.all", "any", "all") and len(args) == 1 and not kw:
             v = args[0]
             if isinstance(v, Empty):
